@@ -75,6 +75,8 @@ def map_rhs(r, f):
             return ("draw", ("bern", map_expr(d[1], f)))
         if d[0] == "cat":
             return ("draw", ("cat", [map_expr(x, f) for x in d[1]]))
+        if d[0] == "cont":
+            return ("draw", ("cont", d[1], [map_expr(x, f) for x in d[2]]))
         return r
     return ("choice", [(map_expr(pr, f), map_expr(e, f)) for pr, e in r[1]])
 
@@ -599,7 +601,7 @@ def run(ctx):
         n_gen -= 1
     # points: the analysed parameter takes two values, the other parameter is fixed
     P0S = [F(1, 3), F(3, 5)]
-    OTHER = {"p": F(2, 5), "q": F(1, 4)}
+    OTHER = {"p": F(3, 7), "q": F(2, 9)}  # chosen not to collide with 1-x, x/2 of the points or the constants used
     tasks, meta = [], []
     for pi, (p, goals, tag) in enumerate(progs):
         text = P.prog_text(p)
@@ -621,17 +623,20 @@ def run(ctx):
     ctx.coverage["slowest_tasks_s"] = sorted([(r.get("seconds", -1), r.get("seconds_a", -1), progs[m[0]][2], t["goal"], t["param"])
                                                for m, t, r in zip(meta, tasks, results)], reverse=True)[:6]
     # ---- oracle: one interpolation family per (program, parameter) ----
-    ofiles, omap = [], {}
-    for pi, (p, goals, tag) in enumerate(progs):
-        for pname in used_params(p):
+    omap = {}
+
+    def oracle_round(keys, Ncap, rnd, timeout):
+        ofiles = []
+        for pi, pname in keys:
+            p, goals, tag = progs[pi]
             fixed = {k2: val for k2, val in OTHER.items() if k2 != pname}
             try:
-                bounds = [degree_bounds(instantiate(p, fixed), pname, m, N) for m in goals]
+                bounds = [degree_bounds(instantiate(p, fixed), pname, m, Ncap) for m in goals]
             except NotPolynomial as e:
                 omap[(pi, pname)] = {"skip": str(e)}
                 continue
             # largest n such that every goal's bound fits into the node budget
-            Nn = N
+            Nn = Ncap
             while Nn >= 0 and max(b[Nn] for b in bounds) + 3 > KMAX:
                 Nn -= 1
             if Nn < 1:
@@ -639,38 +644,47 @@ def run(ctx):
                 continue
             K = max(b[Nn] for b in bounds) + 3
             nodes = NODES[:K]
-            omap[(pi, pname)] = {"bounds": bounds, "N": Nn, "nodes": nodes, "file": f"orc_{pi}_{pname}", "fixed": fixed}
-            ofiles.append((f"orc_{pi}_{pname}", oracle_file(p, goals, pname, fixed, nodes, Nn)))
-    oouts = lib.coq_run_many(ctx, ofiles, timeout=240)
-    print(f"[C10] oracle files: {len(ofiles)} done at {ctx.elapsed():.0f}s", flush=True)
-    for key, om in omap.items():
-        if "skip" in om:
-            continue
-        okc, o = oouts[om["file"]]
-        rs = oracle.parse_results(o) if okc else []
-        K = len(om["nodes"])
-        if len(rs) != K + 1 or any(len(r) != om["N"] + 1 for r in rs[:K]):
-            om["skip"] = "oracle timeout or error"
-            continue
-        if rs[0][:len(rs[K])] != rs[K]:
-            raise RuntimeError("oracle self-check failed: compacted and plain semantics disagree")
-        # interpolate per goal and n
-        pi = key[0]
-        goals = progs[pi][1]
-        polys = []
-        for gi in range(len(goals)):
-            per_n = []
-            for n in range(om["N"] + 1):
-                D = om["bounds"][gi][n]
-                xs = om["nodes"][:D + 1]
-                ys = [rs[i][n][gi] for i in range(D + 1)]
-                pol = interpolate(xs, ys)
-                for i in range(D + 1, K):
-                    if peval(pol, om["nodes"][i]) != rs[i][n][gi]:
-                        raise RuntimeError(f"interpolation self-check failed (degree bound {D} unsound?) for\n{P.prog_text(progs[pi][0])}")
-                per_n.append(pol)
-            polys.append(per_n)
-        om["polys"] = polys
+            omap[(pi, pname)] = {"bounds": bounds, "N": Nn, "nodes": nodes, "file": f"orc{rnd}_{pi}_{pname}", "fixed": fixed}
+            ofiles.append((f"orc{rnd}_{pi}_{pname}", oracle_file(p, goals, pname, fixed, nodes, Nn)))
+        oouts = lib.coq_run_many(ctx, ofiles, timeout=timeout)
+        print(f"[C10] oracle files (round {rnd}): {len(ofiles)} done at {ctx.elapsed():.0f}s", flush=True)
+        again = []
+        for key in keys:
+            om = omap[key]
+            if "skip" in om:
+                continue
+            okc, o = oouts[om["file"]]
+            rs = oracle.parse_results(o) if okc else []
+            K = len(om["nodes"])
+            if len(rs) != K + 1 or any(len(r) != om["N"] + 1 for r in rs[:K]):
+                om["skip"] = "oracle timeout or error"
+                again.append(key)
+                continue
+            if rs[0][:len(rs[K])] != rs[K]:
+                raise RuntimeError("oracle self-check failed: compacted and plain semantics disagree")
+            # interpolate per goal and n
+            goals = progs[key[0]][1]
+            polys = []
+            for gi in range(len(goals)):
+                per_n = []
+                for n in range(om["N"] + 1):
+                    D = om["bounds"][gi][n]
+                    xs = om["nodes"][:D + 1]
+                    ys = [rs[i][n][gi] for i in range(D + 1)]
+                    pol = interpolate(xs, ys)
+                    for i in range(D + 1, K):
+                        if peval(pol, om["nodes"][i]) != rs[i][n][gi]:
+                            raise RuntimeError(f"interpolation self-check failed (degree bound {D} unsound?) for\n{P.prog_text(progs[key[0]][0])}")
+                    per_n.append(pol)
+                polys.append(per_n)
+            om["polys"] = polys
+        return again
+
+    allkeys = [(pi, pname) for pi, (p, goals, tag) in enumerate(progs) for pname in used_params(p)]
+    again = oracle_round(allkeys, N, 0, ctx.pick(90, 240))
+    if again:
+        # state space too large for N iterations inside the time limit: fewer iterations
+        oracle_round(again, 2, 1, ctx.pick(60, 240))
     # ---- evaluate ----
     cases = []
     errs, feats, stat = {}, {}, {}
